@@ -17,6 +17,9 @@ pub struct PipeState {
     /// per-write actions: Some(k) => accept at most k bytes, None => fail; exhausted => accept all
     pub wsched: Vec<Option<usize>>,
     pub widx: usize,
+    /// error kinds of the injected write failures, in order (exhausted: BrokenPipe)
+    pub werr: Vec<std::io::ErrorKind>,
+    pub werr_idx: usize,
     pub reads: usize,
     pub writes: usize,
 }
@@ -35,6 +38,7 @@ impl Pipe {
         Pipe(Rc::new(RefCell::new(PipeState { inbox, rsched, ..Default::default() })), Rc::new(RefCell::new(None)), Rc::new(RefCell::new(0)))
     }
     pub fn with_wsched(self, w: Vec<Option<usize>>) -> Self { self.0.borrow_mut().wsched = w; self }
+    pub fn with_werr(self, k: Vec<std::io::ErrorKind>) -> Self { self.0.borrow_mut().werr = k; self }
     pub fn set_responder(&self, r: Responder) { *self.1.borrow_mut() = Some(r); }
     pub fn clear_responder(&self) { *self.1.borrow_mut() = None; }
     pub fn left(&self) -> Vec<u8> { let s = self.0.borrow(); s.inbox[s.pos..].to_vec() }
@@ -80,7 +84,7 @@ impl Write for Pipe {
         let act = if s.widx < s.wsched.len() { s.wsched[s.widx] } else { Some(usize::MAX) };
         s.widx += 1;
         match act {
-            None => Err(io::Error::new(io::ErrorKind::BrokenPipe, "injected")),
+            None => { let k = if s.werr_idx < s.werr.len() { s.werr[s.werr_idx] } else { io::ErrorKind::BrokenPipe }; s.werr_idx += 1; Err(io::Error::new(k, "injected")) }
             Some(k) => {
                 let n = k.min(buf.len());
                 s.outbox.extend_from_slice(&buf[..n]);
